@@ -506,7 +506,7 @@ namespace avel {
 
     [[nodiscard]]
     AVEL_FINL vec8x64f negate(mask8x64f m, vec8x64f v) {
-        return vec8x64f{_mm512_mask_sub_pd(decay(v), decay(m), _mm512_setzero_pd(), decay(v))};
+        return vec8x64f{_mm512_castsi512_pd(_mm512_mask_xor_epi64(_mm512_castpd_si512(decay(v)), decay(m), _mm512_castpd_si512(decay(v)), _mm512_set1_epi64(std::int64_t(0x8000000000000000ull))))};
     }
 
     [[nodiscard]]
